@@ -117,36 +117,36 @@ pub mod c14 {
 
     // table entries (symbolic arguments)
     obj_h!(q_madt_lapic, kinds::madt::lapic(), 16, true, 60);
-    obj_h!(q_madt_gicd, kinds::madt::gicd(), 32, true, 70);
+    obj_h!(q_madt_gicd, kinds::madt::gicd(), 32, false, 70);
     obj_h!(q_madt_rintc, kinds::madt::rintc(), 48, false, 60);
     obj_h!(q_madt_plic, kinds::madt::plic(), 48, false, 60);
     obj_h!(t_madt_gicc, kinds::madt::gicc(), 96, false, 110);
     obj_h!(t_madt_aplic, kinds::madt::aplic(), 48, false, 60);
     obj_h!(q_srat_mem, kinds::srat::mem(5), 48, false, 60);
-    obj_h!(q_srat_gi_pci, kinds::srat::gi(true, 3), 40, true, 90);
+    obj_h!(q_srat_gi_pci, kinds::srat::gi(true, 3), 40, false, 90);
     obj_h!(t_srat_gi_acpi, kinds::srat::gi(false, 1), 40, false, 60);
-    obj_h!(q_srat_rintc, kinds::srat::rintc(true), 24, true, 70);
+    obj_h!(q_srat_rintc, kinds::srat::rintc(true), 24, false, 70);
     obj_h!(q_hmat_prox, kinds::hmat::prox(), 48, false, 60);
     obj_h!(q_hmat_loc22, kinds::hmat::loc(2, 2, 3), 64, false, 80);
     obj_h!(q_hmat_msc2, kinds::hmat::msc(2), 48, false, 60);
-    obj_h!(q_pptt_proc0, kinds::pptt::proc_node(None, &[], 9), 24, true, 70);
-    obj_h!(q_pptt_cache, kinds::pptt::cache_node(None), 32, true, 80);
+    obj_h!(q_pptt_proc0, kinds::pptt::proc_node(None, &[], 9), 24, false, 70);
+    obj_h!(q_pptt_cache, kinds::pptt::cache_node(None), 32, false, 80);
     obj_h!(q_rhct_cmo, kinds::rhct::cmo(), 12, true, 60);
     obj_h!(q_viot_pci_iommu, kinds::viot::pci_iommu(), 20, true, 60);
-    obj_h!(t_viot_mmio_iommu, kinds::viot::mmio_iommu(), 20, true, 60);
-    obj_h!(q_rimt_iommu2, kinds::rimt::iommu(Some(2), true, true), 56, false, 70);
-    obj_h!(q_rimt_rc0, kinds::rimt::root_complex(None, None), 20, true, 60);
-    obj_h!(q_rimt_plat3, kinds::rimt::platform::<3>(None, None), 20, true, 60);
+    obj_h!(t_viot_mmio_iommu, kinds::viot::mmio_iommu(), 20, false, 60);
+    obj_h!(q_rimt_iommu2, kinds::rimt::iommu(Some(2), false, true), 56, false, 70);
+    obj_h!(q_rimt_rc0, kinds::rimt::root_complex(None, None), 20, false, 60);
+    obj_h!(q_rimt_plat3, kinds::rimt::platform::<3>(None, None), 20, false, 60);
     obj_h!(q_cedt_chbs, kinds::cedt::chbs(), 40, false, 60);
     obj_h!(q_cedt_cfmws2, kinds::cedt::cfmws(1, 9), 48, false, 60);
     obj_h!(q_cedt_cxims1, kinds::cedt::cxims(1), 20, true, 60);
-    obj_h!(q_cedt_rdpas, kinds::cedt::rdpas(), 20, true, 60);
+    obj_h!(q_cedt_rdpas, kinds::cedt::rdpas(), 20, false, 60);
     obj_h!(q_hest_device, kinds::hest::device(false), 48, false, 60);
     obj_h!(t_hest_rootport, kinds::hest::root_port(true), 52, false, 60);
     obj_h!(t_hest_ghes, kinds::hest::ghes(), 68, false, 80);
-    obj_h!(q_hest_notification, kinds::hest::notification(), 32, true, 70);
-    obj_h!(q_rqsc_resource_pci, kinds::rqsc::resource(3), 24, true, 70);
-    obj_h!(q_rqsc_controller1, kinds::rqsc::controller(&[0]), 56, false, 140);
+    obj_h!(q_hest_notification, kinds::hest::notification(), 32, false, 70);
+    obj_h!(q_rqsc_resource_pci, kinds::rqsc::resource(3), 24, false, 70);
+    // RQSC controllers are not offered here: see the note on ResourceID in DESIGN.md 6.5
     obj_h!(q_gas, kinds::sym_gas(), 16, true, 60);
 
     // raw in-memory form == serialised form for everything that can enter MADT / HEST through as_bytes()
@@ -182,7 +182,7 @@ pub mod c14 {
                 let $b = Blob::<3>::any_len(1);
                 let _ = (&$a, &$b);
                 let o = $mk;
-                sinks::<_, $n>(&o, true);
+                sinks::<_, $n>(&o, $n <= 12);
             }
         };
     }
@@ -223,6 +223,6 @@ pub mod c14 {
     #[kani::unwind(110)]
     pub fn q_table_rsdp() {
         let t = acpi_tables::rsdp::Rsdp::new(kani::any(), kani::any());
-        sinks::<_, 40>(&t, true);
+        sinks::<_, 40>(&t, false);
     }
 }
